@@ -8,19 +8,19 @@ from harness import coreenc, coregen, coreprops, sim
 PROFILES = {
     "C01": {"recipes": {"singleton_set": 0.04}, "set_np": 0.5, "max_age": 0.12, "ops": {"die": 0.14, "xkill": 0.06, "check": 0.2, "wake": 0.3},
             "req": {"incr": 0.3, "set": 0.12, "ssr": 0.15, "reload": 0.15, "kill": 0.05, "signal": 0.02, "rm": 0.01, "add": 0.02, "quit": 0.0, "ro": 0.05}},
-    "C02": {"stubborn": 0.2, "on_demand": 0.3, "recipes": {"on_demand_stop": 0.12, "pattern_subset": 0.05}, "ops": {"die": 0.1, "fault": 0.08, "check": 0.15, "sockev": 0.05},
+    "C02": {"eperm": 0.06, "stubborn": 0.2, "on_demand": 0.3, "recipes": {"unsignalable_stop": 0.03, "on_demand_stop": 0.12, "pattern_subset": 0.05}, "ops": {"die": 0.1, "fault": 0.08, "check": 0.15, "sockev": 0.05},
             "req": {"ssr": 0.4, "reload": 0.05, "incr": 0.1, "set": 0.12, "kill": 0.07, "signal": 0.03, "rm": 0.08, "add": 0.03, "quit": 0.02, "ro": 0.03}},
-    "C03": {"stubborn": 0.25, "max_age": 0.15, "set_hooks": 0.1, "recipes": {"children_vanish": 0.06}, "ops": {"wake": 0.5, "die": 0.06, "adv": 0.08},
+    "C03": {"eperm": 0.06, "stubborn": 0.25, "max_age": 0.15, "set_hooks": 0.1, "recipes": {"children_vanish": 0.06}, "ops": {"wake": 0.5, "die": 0.06, "adv": 0.08},
             "req": {"ssr": 0.3, "reload": 0.12, "incr": 0.15, "set": 0.08, "kill": 0.22, "signal": 0.02, "rm": 0.03, "add": 0.01, "quit": 0.01, "ro": 0.02}},
-    "C04": {"exec_fail": 0.2, "hooks": True, "max_age": 0.15, "stubborn": 0.15, "recipes": {"untracked_zombies": 0.08, "on_demand_stop": 0.05, "stopped_worker": 0.04, "sequential_reload_death": 0.03, "reap_veto": 0.05}, "ops": {"die": 0.1, "fault": 0.08, "check": 0.2},
+    "C04": {"eperm": 0.06, "exec_fail": 0.2, "hooks": True, "max_age": 0.15, "stubborn": 0.15, "recipes": {"unsignalable_stop": 0.03, "untracked_zombies": 0.08, "on_demand_stop": 0.05, "stopped_worker": 0.04, "sequential_reload_death": 0.03, "reap_veto": 0.05}, "ops": {"die": 0.1, "fault": 0.08, "check": 0.2},
             "req": {"ssr": 0.3, "reload": 0.1, "incr": 0.15, "set": 0.05, "kill": 0.08, "signal": 0.02, "rm": 0.05, "add": 0.05, "quit": 0.0, "ro": 0.15}},
-    "C05": {"stubborn": 0.3, "recipes": {"on_demand_stop": 0.05, "options_observe": 0.05}, "ops": {"wake": 0.4, "check": 0.1},
+    "C05": {"eperm": 0.08, "stubborn": 0.3, "recipes": {"unsignalable_stop": 0.04, "on_demand_stop": 0.05, "options_observe": 0.05}, "ops": {"wake": 0.4, "check": 0.1},
             "req": {"ssr": 0.28, "reload": 0.12, "incr": 0.08, "set": 0.05, "kill": 0.18, "signal": 0.03, "rm": 0.04, "add": 0.02, "quit": 0.01, "ro": 0.16}},
-    "C06": {"set_hooks": 0.1, "ops": {"raw": 0.1, "wake": 0.3}, "req": {}},
-    "C08": {"stubborn": 0.2, "ops": {"sig": 0.06, "wake": 0.4}, "req": {"quit": 0.08}},
+    "C06": {"eperm": 0.12, "recipes": {"unsignalable_stop": 0.05}, "set_hooks": 0.1, "ops": {"raw": 0.1, "wake": 0.3}, "req": {}},
+    "C08": {"eperm": 0.10, "recipes": {"unsignalable_stop": 0.05}, "stubborn": 0.2, "ops": {"sig": 0.06, "wake": 0.4}, "req": {"quit": 0.08}},
     "C09": {"max_age": 0.12, "recipes": {"untracked_zombies": 0.06, "sequential_reload_death": 0.05, "reap_veto": 0.04}, "ops": {"die": 0.15, "xkill": 0.08, "check": 0.18},
             "req": {"incr": 0.25, "set": 0.1, "reload": 0.15, "ssr": 0.2, "kill": 0.08, "signal": 0.02, "rm": 0.02, "add": 0.02, "quit": 0.0, "ro": 0.05}},
-    "C10": {"hooks": True, "exec_fail": 0.15, "ops": {"wake": 0.25, "check": 0.1}, "req": {}},
+    "C10": {"eperm": 0.15, "recipes": {"unsignalable_stop": 0.10}, "hooks": True, "exec_fail": 0.15, "ops": {"wake": 0.25, "check": 0.1}, "req": {}},
     # (with the default weights of the other commands the cumulated weights passed 1 before `ro` and the malformed messages
     # were reached: C11 never sent a read-only request — every weight is spelled out now)
     "C11": {"recipes": {"singleton_set": 0.04, "options_observe": 0.08}, "ops": {"wake": 0.25}, "set_extra": True, "owner": 0.3, "set_hooks": 0.12,
@@ -29,7 +29,7 @@ PROFILES = {
     "C14": {"recipes": {"signal_veto": 0.05, "reap_veto": 0.05, "set_hook": 0.08}, "hooks": True, "stubborn": 0.2, "ops": {"wake": 0.45}, "set_hooks": 0.8,
             "req": {"ssr": 0.41, "reload": 0.08, "incr": 0.08, "set": 0.06, "kill": 0.12, "signal": 0.12, "rm": 0.02, "add": 0.02, "quit": 0.0, "ro": 0.02}},
     "C15": {"ops": {"wake": 0.3}, "req": {"add": 0.22, "rm": 0.15, "ssr": 0.25, "ro": 0.25, "incr": 0.03, "set": 0.02, "kill": 0.02, "signal": 0.02, "reload": 0.02, "quit": 0.0}},
-    "C18": {"recipes": {"signal_veto": 0.03, "children_vanish": 0.04}, "ops": {"wake": 0.3}, "req": {"signal": 0.4, "kill": 0.3, "ssr": 0.1, "incr": 0.03, "set": 0.02, "rm": 0.02, "add": 0.03, "reload": 0.02, "quit": 0.0, "ro": 0.03}},
+    "C18": {"eperm": 0.08, "recipes": {"signal_veto": 0.03, "children_vanish": 0.04}, "ops": {"wake": 0.3}, "req": {"signal": 0.4, "kill": 0.3, "ssr": 0.1, "incr": 0.03, "set": 0.02, "rm": 0.02, "add": 0.03, "reload": 0.02, "quit": 0.0, "ro": 0.03}},
     "C19": {"start_first": 1.0, "recipes": {"topup_start": 0.15, "pattern_subset": 0.08}, "ops": {"wake": 0.75, "adv": 0.08, "die": 0.08, "check": 0.0, "xkill": 0.02, "fault": 0.03, "raw": 0.0, "sig": 0.0},
             "req": {"ro": 0.9, "ssr": 0.1, "reload": 0, "incr": 0, "set": 0, "kill": 0, "signal": 0, "rm": 0, "add": 0, "quit": 0}},
 }
@@ -40,7 +40,9 @@ TRUSTED_EXTRA = [
 ]
 ASSUMPTIONS = [
     "kernel contract = harness/sim.py (process table, reaping, signal effects resolve when virtual time reaches their deadline, "
-    "SIGKILL latency parameter, exec failure script); real kernel scheduling is not modelled; SIGSTOP / SIGTSTP / SIGTTIN / SIGTTOU "
+    "SIGKILL latency parameter, exec failure script; a worker — or its children — under another uid: the daemon's own os.kill is "
+    "refused with EPERM, which psutil reports as AccessDenied, while signals of the outside world still arrive); real kernel "
+    "scheduling is not modelled; SIGSTOP / SIGTSTP / SIGTTIN / SIGTTOU "
     "suspend a worker without ending it and are reported only to a waitpid that asks for them (WUNTRACED) — the daemon never does; "
     "a suspended worker still acts on later signals as a running one would (job-control state is not modelled further)",
     "every successful fork/exec takes at least 1 ms of virtual time, so the workers of one watcher have distinct Process.started "
@@ -69,7 +71,7 @@ def make(prop_id, lean_props, lean_lemmas=(), n_quick=900, n_thorough=6000, extr
     m.ASSUMPTIONS = ASSUMPTIONS
     m.RULE = ("scenario = watcher configs (numprocesses, singleton, respawn, warmup, graceful_timeout, stop_signal, "
               "stop_children, priority, autostart, max_retry, hooks with scripted outcomes) + worker behaviours (obey after d ms | "
-              "ignore, SIGKILL latency, children, exec failure) + op list (requests of all modelled commands valid and corrupted, raw "
+              "ignore, SIGKILL latency, children, exec failure, not signalable by the daemon: EPERM) + op list (requests of all modelled commands valid and corrupted, raw "
               "frames, periodic check, timer wake, time advance, worker death, outside kill, death before the k-th kernel call), "
               "generated adaptively against the running implementation with a %s-specific op/command mix; one scenario in seven also "
               "contains unit-level probes (a watcher status forced to any value, a single watcher method called directly: "
@@ -103,8 +105,8 @@ def make(prop_id, lean_props, lean_lemmas=(), n_quick=900, n_thorough=6000, extr
     def impl_run(sc):
         s = sim.Sim(sc)
         steps = s.run()
-        return {"steps": [{"op": st["op"], "lines": st["lines"], "snap": st["snap"], "slept": st["slept"], "opts": st.get("opts")}
-                          for st in steps],
+        return {"steps": [{"op": st["op"], "lines": st["lines"], "snap": st["snap"], "slept": st["slept"], "opts": st.get("opts"),
+                           "reasons": st.get("reasons", [])} for st in steps],
                 "hook_calls": [[w, h, n] for (w, h), n in sorted(s.counters.items())]}
 
     def impl_view(sc, obs):
